@@ -766,6 +766,14 @@ class Machine:
                    (e.get('k') == 'call' and e.get('obj') is not None and self.stack_name(e['obj']) and (e.get('pq') or '').split('::')[-1] not in ('top', 'length')) or \
                    (e.get('k') == 'var' and e.get('id') == self.cursor):
                     raise Stuck('inner loop at line %d modifies tracked state or the cursor' % s.get('l', 0))
+            if env.texts and k == 'for':
+                # run_text mode: a counting loop over a followed text (a scan of the pending character data) is executed
+                # concretely as long as its condition evaluates to a known value
+                res = self.concrete_for(s, env.copy(), c)
+                if res is not None:
+                    for r in res:
+                        yield r
+                    return
             yield env.copy(), None
             e1 = env
             if s.get('init') is not None:
@@ -803,6 +811,36 @@ class Machine:
             yield env, None
             return
         raise Stuck('statement kind %s at line %d' % (k, s.get('l', 0)))
+
+    def concrete_for(self, s, env, c, limit=4096):
+        """[(env, control)] of a `for` loop executed iteration by iteration, or None when a condition or a fork makes the
+        concrete execution impossible (the caller falls back to the abstract zero-or-one-iteration treatment)"""
+        if s.get('init') is not None:
+            outs = list(self.exec_stmt(s['init'], env, c))
+            if len(outs) != 1 or outs[0][1] is not None:
+                return None
+            env = outs[0][0]
+        for _ in range(limit):
+            if s.get('c') is not None:
+                cv = self.ev(s['c'], env, c)
+                if cv is U or isinstance(cv, tuple):
+                    return None
+                if not cv:
+                    return [(env, None)]
+            outs = list(self.exec_stmt(s['body'], env, c))
+            if len(outs) != 1:
+                return None
+            env, ctl = outs[0]
+            if ctl == 'break':
+                return [(env, None)]
+            if ctl not in (None, 'continue'):
+                return [(env, ctl)]
+            if s.get('inc') is not None:
+                outs = list(self.exec_expr(s['inc'], env, c))
+                if len(outs) != 1:
+                    return None
+                env = outs[0]
+        return None
 
     def exec_seq(self, stmts, start, env, c):
         if start >= len(stmts):
